@@ -7,12 +7,13 @@ package main
 
 import (
 	"context"
-	"math"
 	"encoding/json"
 	"errors"
 	"fmt"
 	"iter"
+	"math"
 	"net/http"
+	"strings"
 	"time"
 
 	"ebuverif/internal/h"
@@ -58,12 +59,21 @@ type tcase struct {
 	// log) or refuses it, the log afterwards is what one unlimited Read returns, and Replay
 	// from any of its offsets delivers what follows.
 	Refused int `json:"append_with_cancelled_context_after,omitempty"`
+	// Between (memory store, whose offsets are fixed-width decimal strings compared as
+	// strings): the start offset is a well-formed string that no event carries - the position
+	// before the first event ("000...0", what a consumer that counts its progress starts from)
+	// for Start 0, and one that sorts between event #Start and the next one otherwise.
+	// "After the offset" means what it says: the events whose offsets are greater.
+	Between bool `json:"start_offset_that_no_event_carries,omitempty"`
 }
 
 func (t tcase) String() string {
 	s := fmt.Sprintf("store=%s batch=%d log=%d start=%d fault=%s@%d", configs[t.Cfg].Name, t.Batch, t.L, t.Start, t.Fault, t.At)
 	if t.Own > 0 {
 		s += fmt.Sprintf(" own=%d", t.Own)
+	}
+	if t.Between {
+		s += " start-offset-that-no-event-carries"
 	}
 	if t.Refused > 0 {
 		s += fmt.Sprintf(" append-with-cancelled-context-after=%d", t.Refused)
@@ -229,6 +239,13 @@ func runCase(t tcase) (result, []string) {
 	from := eventbus.OffsetOldest
 	if t.Start > 0 {
 		from = offs[t.Start-1]
+	}
+	if t.Between && len(offs) > 0 {
+		if t.Start == 0 {
+			from = eventbus.Offset(strings.Repeat("0", len(offs[0])))
+		} else {
+			from += "~"
+		}
 	}
 	if t.Fault == "row-fail" {
 		stores.ResetSQLFaults(t.At)
@@ -463,6 +480,20 @@ func cases(thorough bool) []tcase {
 							l = append(l, tcase{Cfg: ci, Batch: b, L: L, Start: s, Fault: "row-fail", At: p})
 						}
 					}
+				}
+			}
+		}
+	}
+	// start offsets that no event carries (memory store)
+	for ci, cfg := range configs {
+		if cfg.Kind != "memory" {
+			continue
+		}
+		for _, b := range []int{0, 2} {
+			for _, s := range []int{0, 1, 2, 4, 5} {
+				l = append(l, tcase{Cfg: ci, Batch: b, L: 5, Start: s, Fault: "none", Between: true})
+				if s < 5 {
+					l = append(l, tcase{Cfg: ci, Batch: b, L: 5, Start: s, Fault: "cb-error", At: 1, Between: true})
 				}
 			}
 		}
